@@ -315,16 +315,54 @@ func (r *reconstructor) reconstructPacket(rv []reflect.Value) error {
 	return nil
 }
 
+// replacePlaceholder puts the attachment into slot when slot is a settable
+// interface value (an `any` argument, slice element or struct field) that
+// holds a placeholder object: {"_placeholder": true, "num": n}.
+// Placeholders that are values of a map are handled by reconstructMap.
+func (r *reconstructor) replacePlaceholder(slot reflect.Value) (done bool, err error) {
+	if slot.Kind() != reflect.Interface || slot.IsNil() || !slot.CanSet() {
+		return false, nil
+	}
+	mv := slot.Elem()
+	if mv.Kind() != reflect.Map || mv.Len() != 2 || mv.Type().Key() != stringType || mv.Type().Elem().Kind() != reflect.Interface {
+		return false, nil
+	}
+	pholder := mv.MapIndex(reflect.ValueOf("_placeholder"))
+	num := mv.MapIndex(reflect.ValueOf("num"))
+	if !pholder.IsValid() || !num.IsValid() {
+		return false, nil
+	}
+	pholder, num = pholder.Elem(), num.Elem()
+	if pholder.Kind() != reflect.Bool || !pholder.Bool() || num.Kind() != reflect.Float64 {
+		return false, nil
+	}
+
+	n := int(num.Float())
+	n++
+
+	if n < 1 || n >= len(r.buffers) {
+		return false, errInvalidPlaceholderNumValue
+	}
+	slot.Set(reflect.ValueOf(r.buffers[n]))
+	return true, nil
+}
+
 func (r *reconstructor) reconstructValue(rv reflect.Value) error {
 	k := rv.Kind()
 	original := rv
 	if k == reflect.Interface || k == reflect.Ptr {
+		if done, err := r.replacePlaceholder(rv); done || err != nil {
+			return err
+		}
 		rv = rv.Elem()
 		k = rv.Kind()
 	}
 
 	// Check twice. rv can be a pointer to an interface.
 	if k == reflect.Interface || k == reflect.Ptr {
+		if done, err := r.replacePlaceholder(rv); done || err != nil {
+			return err
+		}
 		rv = rv.Elem()
 		k = rv.Kind()
 	}
@@ -428,6 +466,13 @@ func (r *reconstructor) reconstructStruct(rv reflect.Value) error {
 
 		k := fv.Kind()
 		if k == reflect.Interface || k == reflect.Ptr {
+			done, err := r.replacePlaceholder(fv)
+			if err != nil {
+				return err
+			}
+			if done {
+				continue
+			}
 			fv = fv.Elem()
 			//k = fv.Kind()
 		}
